@@ -32,6 +32,7 @@ import Ymq.Lemmas.FIntRoot
 import Ymq.Lemmas.CrtLemmas
 import Ymq.Lemmas.CrtEstimate
 import Ymq.Lemmas.CrtColumns
+import Ymq.Lemmas.NttRoots
 import Ymq.Lemmas.PolyDft
 import Ymq.Lemmas.PolyZMod
 import Ymq.Lemmas.PolyMiddle
@@ -579,6 +580,40 @@ theorem ntt_table_ok :
   refine ⟨Ymq.Crt.primes_coprime, fun r hr => ?_⟩
   obtain ⟨h1, h2, h3, h4, h5⟩ := Ymq.Crt.rows_ok r hr
   exact ⟨h1, h2, h3, h4, by rw [← Ymq.Crt.sqIter_eq]; exact h5⟩
+
+/-- **The root tables of `MultiZmodP::new`** (model `Ymq.Crt.rootsPacked`: `ωs[i] = mg_mul64(g_i^(2^(32-logsize)),
+R²)`, the `2^logsize` successive products, the packed levels `roots[log]` = `2^(log-1)` forward then
+`2^(log-1)` backward entries): for every context built by the model of `new` with `logsize ≤ 31` no
+panic site is reached and the tables meet `RootsOk`: level `k` holds the Montgomery forms of `ω_k^i` and
+`ω_k^(-i)` (`i < 2^(k-1)`), `ω_k = g^(2^(32-k))` (`omk`), with `ω_(k+1)² = ω_k`, `ω_k^(2^(k-1)) = -1`
+(principal root: hypothesis of `dft_conv`), `ω_k·ω_k⁻¹ = 1`, for every prime of the context. -/
+theorem ntt_roots_spec (n logsize : Nat) (m : Ymq.Crt.Mzp) (hm : Ymq.Crt.new n logsize = some m)
+    (hK : m.k ≤ 31) :
+    ∃ rts, Ymq.Crt.rootsPacked m = some rts ∧ Ymq.Crt.RootsOk m rts (Ymq.Crt.omk m) :=
+  Ymq.Crt.rootsPacked_ok n logsize m hm hK
+
+/-- **`MultiZmodP::ntt_inplace` is the DFT recursion of `dft_conv` per prime** (word-level model
+`Ymq.Crt.nttInplace`: `k = 1` butterfly, else the two half transforms, then `muladdsub_inplace` with the
+forward or backward half of `roots[k]`; `div_pow2(depth + 1)` at the leaves of the inverse direction;
+Montgomery `u64` arithmetic by the C07 models of `mg_mul`/`mg_redc`, every `u64` addition and
+subtraction of the butterflies checked). For a context built by the model of `new`, `1 ≤ k ≤ logsize ≤ 31`,
+`depth + k ≤ 64` and a vector of `2^k` elements of `w` reduced residues (`VecOk`): no panic site is
+reached, every output residue is reduced, and for every prime `j` and index `i`,
+`out[i]_j · (1 | 2^(depth+k)) = fftRec k ω (t ↦ v[bitrev k t]_j) i` in `ZMod p_j` — `mfe` reads a residue
+out of its Montgomery form, `ω = omk m j k fwd` is `g_j^(2^(32-k))` or its inverse, the input is taken in
+bit-reversed order as the code documents. With `dft_conv` (1): `out` is the DFT of the bit-reversed
+input. -/
+theorem ntt_inplace_spec (n logsize : Nat) (m : Ymq.Crt.Mzp) (hm : Ymq.Crt.new n logsize = some m)
+    (hK : m.k ≤ 31) (fwd : Bool) (k : Nat) (v : List (List Nat)) (depth : Nat) (h1 : 1 ≤ k) (hk : k ≤ m.k)
+    (hv : Ymq.Crt.VecOk m v (2 ^ k)) (hd : depth + k ≤ 64) :
+    ∃ rts, Ymq.Crt.rootsPacked m = some rts ∧
+      ∃ out, Ymq.Crt.nttInplace m rts k v depth fwd = some out ∧ Ymq.Crt.VecOk m out (2 ^ k) ∧
+        ∀ j, j < m.w → ∀ i, i < 2 ^ k →
+          Ymq.Crt.mfe m (out.getD i []) j * (if fwd then 1 else 2 ^ (depth + k)) =
+            Ymq.Dft.fftRec k (Ymq.Crt.omk m j k fwd)
+              (fun t => Ymq.Crt.mfe m (v.getD (Ymq.Crt.bitrev k t) []) j) i := by
+  obtain ⟨rts, e, hr⟩ := Ymq.Crt.rootsPacked_ok n logsize m hm hK
+  exact ⟨rts, e, Ymq.Crt.nttInplace_spec m (Ymq.Crt.tabOk_of_new n logsize m hm) rts _ hr fwd k v depth h1 hk hv hd⟩
 
 end CrtSpecs
 
